@@ -584,6 +584,10 @@ func nz32(arg uint64) uint32 { return uint32(arg%0xFFFFFFFF) + 1 } // never 0: x
 func runC44(ctx *ev.Ctx, c c44Case) {
 	world.ResetGlobals(0)
 	ctx.Label("mode:" + c.Mode)
+	if c.Mode == "wire" {
+		runC44Wire(ctx, c) // byte-level decode side, driven by FuzzC44 (c44_fuzz_test.go)
+		return
+	}
 	ctx.Label("kind:" + c.Kind)
 	wt, okKind := c44WireType[c.Kind]
 	if !okKind || (c.Blk == nil && (c.Kind == "proposal" || c.Kind == "blockfetchresp")) {
